@@ -63,6 +63,8 @@ mod themes;
 mod transform;
 mod transform_attr;
 mod types;
+#[cfg(feature = "verif")]
+pub mod verif;
 
 pub use errors::Result;
 use transform::Transformer;
